@@ -221,7 +221,7 @@ PROPS = {
     ),
     'C17': dict(
         level='other',
-        functions=[SEQ + f for f in ('__init__', 'swapRes', 'swapRandChargeRes', 'full_shuffle')] +
+        functions=[SEQ + f for f in ('__init__', 'swapRes', 'swapRandChargeRes', 'full_shuffle', 'permute_block_swap')] +
                   [SP + f for f in ('__init__', '__init__#seqobj', 'get_shuffled_sequence')] + ['localcider/sequencePermutants.py:SequencePermutants.get_permutant'],
         lemmas=['nmov_strict', 'nmov_nonneg', 'nmov_mono', 'nmov_nonneg_all'], lean=[('Perm.lean', 'perm_counts')],
         native='c17',
@@ -229,7 +229,7 @@ PROPS = {
                     'swapRes returns the transposition of the two positions; swapRandChargeRes returns the object itself or a transposition of two NON-frozen positions and never raises; '
                     'full_shuffle keeps every frozen position and gives every other position the residue of a non-frozen source position taken from a duplicate-free shuffled enumeration (pop never hits an empty list); '
                     'every child satisfies the class invariant (length, charge pattern of ITS sequence), carries -1 or the parent\'s delta-max, and the parent object is unchanged (frame). '
-                    'NOT under contract: permute_block_swap and permute_cluster_charges (slice assignment / retry loops whose termination is probabilistic) - bounded native runs with tape-driven RNG; '
+                    'permute_block_swap (sequences of at least 4 residues, every outcome of randint/sample, every number of retries): the child is the parent with two DISJOINT stretches of equal length exchanged (existential invariant proved with the witnesses min(block0), min(block1), max(block0)-min(block0); slice assignment modelled for in-range equal-length slices), satisfies the class invariant, carries -1 or the parent\'s delta-max, the parent is unchanged, and the only exception is the documented SequenceException. NOT under contract: permute_cluster_charges (nested retry loops whose termination is probabilistic, two dynamic index sets filled by pop(0)) - bounded native runs with tape-driven RNG; '
                     'they ignore `frozen` (defect D8, known finding)',
         assumptions=['"is a rearrangement": proved in witness form (child = parent composed with an index map: transposition / frozen-identity + duplicate-free sources); that an injective self-map of [0,N) preserves all letter counts is Lean lemma perm_counts (/verif/lemmas/Perm.lean), the injectivity of the full_shuffle map is argued from the proved facts (duplicate-free enumeration, strictly increasing count of movable positions), not mechanised',
                      'random.Random, list(set), sorted(set), len(set), set difference: trusted library models (DESIGN 1.4)',
